@@ -140,6 +140,7 @@ pub fn u2(thorough: bool) -> Vec<Ty> {
         s.insert(Ty::union([Ty::mutc(x.clone()), Ty::Str]));
     }
     s.extend(fold_sensitive());
+    s.extend(nested_unions());
     s.into_iter().collect()
 }
 
@@ -169,6 +170,34 @@ pub fn fold_sensitive() -> Vec<Ty> {
         out.push(Ty::union([a.clone(), b.clone(), c.clone()]));
         for w in &wrappers {
             out.push(Ty::union([w(a.clone()), w(b.clone()), w(c.clone())]));
+        }
+    }
+    out
+}
+
+/// Unions nested in unions through a constructor, whose inner members print differently under
+/// different iteration orders (structs with two fields, unions): anything that orders or
+/// hashes members by their printed text is unstable on these.
+pub fn nested_unions() -> Vec<Ty> {
+    let i = Ty::Int;
+    let inner: Vec<Ty> = vec![
+        Ty::union([Ty::strukt(&[("a", i.clone()), ("c", i.clone())]), Ty::strukt(&[("b", i.clone())])]),
+        Ty::union([Ty::arr(Ty::union([Ty::Int, Ty::Str])), Ty::arr(Ty::Str)]),
+        Ty::union([Ty::Tup(vec![Ty::union([Ty::Int, Ty::Str]), i.clone()]), Ty::Tup(vec![Ty::Str, i.clone()])]),
+        Ty::union([Ty::func(vec![], Ty::union([Ty::Int, Ty::Str])), Ty::func(vec![], Ty::Str)]),
+    ];
+    let wrappers: Vec<Box<dyn Fn(Ty) -> Ty>> = vec![
+        Box::new(Ty::mutc),
+        Box::new(Ty::arr),
+        Box::new(|t| Ty::Tup(vec![t, Ty::Int])),
+        Box::new(|t| Ty::func(vec![], t)),
+        Box::new(|t| Ty::func(vec![t], Ty::Int)),
+    ];
+    let mut out = Vec::new();
+    for u in &inner {
+        for w in &wrappers {
+            out.push(Ty::union([w(u.clone()), Ty::Bool]));
+            out.push(Ty::mutc(Ty::union([w(u.clone()), Ty::Bool])));
         }
     }
     out
